@@ -513,3 +513,215 @@ impl Check for C13 {
         out
     }
 }
+
+// ------------------------------------------------------------------------------------------------
+// C15 — describe() prints TypeScript that compiles back to the same validator
+// ------------------------------------------------------------------------------------------------
+pub struct C15;
+
+fn declared_names(text: &str) -> Vec<String> {
+    let mut out = vec![];
+    for line in text.lines() {
+        let l = line.trim_start();
+        if let Some(rest) = l.strip_prefix("type ") {
+            let name: String = rest.chars().take_while(|c| c.is_alphanumeric() || *c == '_' || *c == '$').collect();
+            if !name.is_empty() {
+                out.push(name);
+            }
+        }
+    }
+    out
+}
+
+impl Check for C15 {
+    fn id(&self) -> &'static str {
+        "C15"
+    }
+    fn cases(&self, tier: Tier) -> u32 {
+        match tier {
+            Tier::Quick => 2500,
+            Tier::Thorough => 80_000,
+        }
+    }
+    fn stream_len(&self) -> usize {
+        2500
+    }
+    fn rule(&self) -> String {
+        "case = program from the C01 generator (all families: non-identifier keys, recursive and mutually recursive types, generic instances, records, tuple rests, non-JSON builtins, formats, templates) + ~20 values per parser. Oracle (round trip): describe() returns; its text followed by parse.buildParsers<{P: CodecP}>() compiles without diagnostics; the second-generation validator agrees with the first on every value (default and strict) and on hash256; every alias in the text is declared exactly once. Non-trivial = the type contains one of the hard families (non-identifier key, recursion, record/index signature, tuple rest, non-JSON builtin, format, template, intersection). Distinct = hash(program).".into()
+    }
+    fn assumptions(&self) -> Vec<String> {
+        vec!["describe() output is judged as beff input (not by tsc, which is not available offline)".into()]
+    }
+    fn health(&self) -> Vec<(&'static str, f64)> {
+        vec![("described", 0.5), ("second_generation_ran", 0.3)]
+    }
+    fn generate(&self, s: &mut Src, _tier: Tier) -> Value {
+        let cfg = GenCfg::default();
+        let case = crate::c01::gen_typed_case(s, &cfg, RenderCfg::all(), Mode::Open, 2, (8, 7, 5));
+        serde_json::to_value(case).unwrap()
+    }
+    fn exec(&self, case: &Value, ctx: &mut Ctx) -> Outcome {
+        let case: crate::c01::TypedCase = match serde_json::from_value(case.clone()) {
+            Ok(c) => c,
+            Err(e) => return Outcome::infra(format!("bad case: {}", e)),
+        };
+        let mut out = Outcome::default();
+        let mut scratch = Outcome::default();
+        let code = match compile_case(&case.program, &mut scratch, ctx, "C15") {
+            Some(c) => c,
+            None => {
+                if scratch.infra.is_some() {
+                    return scratch;
+                }
+                out.label("compile_failed_skipped");
+                return out;
+            }
+        };
+        let mut queries = vec![];
+        for (i, (name, _)) in case.roots.iter().enumerate() {
+            queries.push(json!({"q":"describe","parser":name}));
+            queries.push(json!({"q":"validateMany","parser":name,"values": case.values[i].iter().map(|(v,_)| v.to_tagged()).collect::<Vec<_>>(), "optsList":[null, {"strict": true}]}));
+            queries.push(json!({"q":"hash256","parser":name}));
+        }
+        let resp = match node_case(ctx, Some(&code), queries) {
+            Ok(r) => r,
+            Err(e) => return Outcome::infra(e),
+        };
+        if resp.get("loadError").is_some() {
+            out.label("load_error_skipped");
+            return out;
+        }
+        for (i, (name, d)) in case.roots.iter().enumerate() {
+            let desc = &resp["results"][3 * i];
+            let m1 = &resp["results"][3 * i + 1]["m"];
+            let h1 = &resp["results"][3 * i + 2]["r"];
+            let family = hard_family(&case.env, d);
+            if let Some(f) = family {
+                out.label(format!("family:{}", f));
+            }
+            out.evals += 1;
+            let text = match desc["r"].as_str() {
+                Some(t) => t.to_string(),
+                None => {
+                    out.mismatch(ctx, "describe_threw", format!("{}: describe() threw {}", name, desc["threw"]), json!({"program": case.program, "parser": name}));
+                    continue;
+                }
+            };
+            out.label("described");
+            // every alias declared exactly once
+            let names = declared_names(&text);
+            let mut sorted = names.clone();
+            sorted.sort();
+            sorted.dedup();
+            if sorted.len() != names.len() {
+                out.mismatch(ctx, "alias_declared_twice", format!("{}: describe() declares an alias more than once", name), json!({"program": case.program, "parser": name, "described": text}));
+            }
+            let program2 = format!("{}\nexport const Parsers = parse.buildParsers<{{ {}: Codec{} }}>();\n", text, name, name);
+            let c2 = match ctx.compiler.compile(&crate::compile::Project::single(&program2), if ctx.shrinking { 3 } else { 20 }) {
+                Ok(c) => c,
+                Err(crate::compile::CompileFail::Infra(e)) => return Outcome::infra(e),
+                Err(_) => {
+                    out.mismatch(ctx, "described_text_crashes_compiler", format!("{}: the described text makes the compiler crash or hang", name), json!({"program": case.program, "described": text}));
+                    continue;
+                }
+            };
+            if c2.panic.is_some() || !c2.diags.is_empty() || c2.code.is_none() {
+                let msg = c2.panic.clone().or_else(|| c2.diags.first().map(|d| d.message.clone())).unwrap_or_default();
+                out.mismatch(
+                    ctx,
+                    &format!("described_text_does_not_compile:{}", describe_failure_class(&text, &msg)),
+                    format!("{}: the text returned by describe() does not compile: {}", name, msg),
+                    json!({"program": case.program, "parser": name, "described": text, "message": msg, "type": d}),
+                );
+                continue;
+            }
+            let q2 = vec![
+                json!({"q":"validateMany","parser":name,"values": case.values[i].iter().map(|(v,_)| v.to_tagged()).collect::<Vec<_>>(), "optsList":[null, {"strict": true}]}),
+                json!({"q":"hash256","parser":name}),
+            ];
+            let resp2 = match node_case(ctx, Some(c2.code.as_ref().unwrap()), q2) {
+                Ok(r) => r,
+                Err(e) => return Outcome::infra(e),
+            };
+            if resp2.get("loadError").is_some() {
+                out.mismatch(ctx, "described_module_does_not_load", format!("{}: the module compiled from describe() does not load", name), json!({"program": case.program, "described": text}));
+                continue;
+            }
+            out.label("second_generation_ran");
+            if family.is_some() {
+                out.nontrivial = Some(fp(&case.program));
+                out.sample = Some(json!({"program": case.program, "parser": name, "described": text}));
+            }
+            let m2 = &resp2["results"][0]["m"];
+            for (j, (v, _)) in case.values[i].iter().enumerate() {
+                for (mode, idx) in [("default", 0), ("strict", 1)] {
+                    let (x, y) = (&m1[j][idx], &m2[j][idx]);
+                    if x.is_i64() && y.is_i64() && x != y {
+                        let has = |pred: &dyn Fn(&D) -> bool| d.any_node(&mut |n| pred(n)) || case.env.defs.iter().any(|(_, x)| x.any_node(&mut |n| pred(n)));
+                        let suffix = if has(&|n| matches!(n, D::Tpl(parts) if parts.iter().any(|p| matches!(p, crate::den::TplPart::OneOf(_))))) {
+                            ":template_union_placeholder"
+                        } else if mode == "strict" && has(&|n| matches!(n, D::Inter(_))) {
+                            ":intersection_member_named_or_inline"
+                        } else {
+                            ""
+                        };
+                        let sig = if suffix == ":template_union_placeholder" { "second_generation_disagrees:template_union_placeholder".to_string() } else { format!("second_generation_disagrees:{}{}", mode, suffix) };
+                        out.mismatch(
+                            ctx,
+                            &sig,
+                            format!("{}: the validator compiled from describe() disagrees with the original in {} mode ({} vs {})", name, mode, x, y),
+                            json!({"program": case.program, "parser": name, "described": text, "value": v, "value_tagged": v.to_tagged(), "type": d}),
+                        );
+                    }
+                }
+            }
+            let h2 = &resp2["results"][1]["r"];
+            let tpl_oneof = d.any_node(&mut |n| matches!(n, D::Tpl(parts) if parts.iter().any(|p| matches!(p, crate::den::TplPart::OneOf(_)))))
+                || case.env.defs.iter().any(|(_, x)| x.any_node(&mut |n| matches!(n, D::Tpl(parts) if parts.iter().any(|p| matches!(p, crate::den::TplPart::OneOf(_))))));
+            if h1 != h2 && tpl_oneof {
+                out.mismatch(ctx, "second_generation_disagrees:template_union_placeholder", format!("{}: hash256 changes through describe() ({} vs {})", name, h1, h2), json!({"program": case.program, "parser": name, "described": text, "type": d}));
+            } else if h1 != h2 {
+                out.mismatch(ctx, &format!("second_generation_hash256_differs:{}", hash_difference_class(&case.env, d)), format!("{}: hash256 changes through describe() ({} vs {})", name, h1, h2), json!({"program": case.program, "parser": name, "described": text, "type": d}));
+            }
+        }
+        out
+    }
+}
+
+fn hard_family(env: &Env, d: &D) -> Option<&'static str> {
+    let mut fam: Option<&'static str> = None;
+    let mut visit = |x: &D| {
+        x.any_node(&mut |n| {
+            let f = match n {
+                D::Object { props, .. } if props.iter().any(|p| !p.key.chars().all(|c| c.is_ascii_alphabetic())) => Some("non_identifier_key"),
+                D::Object { index: Some(_), .. } => Some("index_signature"),
+                D::Tuple(_, Some(_)) => Some("tuple_rest"),
+                D::Date | D::BigInt | D::Map(_, _) | D::Set(_) | D::TypedArray(_) => Some("non_json_builtin"),
+                D::StrFmt(_) | D::NumFmt(_) => Some("format"),
+                D::Tpl(_) => Some("template"),
+                D::Inter(_) => Some("intersection"),
+                D::Ref(_) => Some("named_or_recursive"),
+                _ => None,
+            };
+            if fam.is_none() {
+                fam = f;
+            }
+            false
+        });
+    };
+    visit(d);
+    let _ = env;
+    fam
+}
+
+fn describe_failure_class(text: &str, msg: &str) -> &'static str {
+    if text.contains("BigInt") {
+        "bigint_printed_as_BigInt"
+    } else if text.contains("[K in ") {
+        "index_member_printed_as_mapped_type"
+    } else if msg.contains("parse") || msg.contains("find file") {
+        "not_parseable"
+    } else {
+        "other"
+    }
+}
